@@ -1,0 +1,43 @@
+//go:build verif
+
+package verifhook
+
+// Enabled reports whether the instrumentation is compiled in.
+const Enabled = true
+
+// Solver event kinds.
+const (
+	EvSet       = 1 // a = wire id
+	EvLevel     = 2 // a = level index, b = len(level)
+	EvTaskPush  = 3 // a = start offset in level, b = end offset
+	EvLevelDone = 4 // a = level index
+	EvInstr     = 5 // a = instruction index
+)
+
+// PostSolveFn, SolverEventFn and GateFn are installed by a harness; nil means no-op.
+var (
+	PostSolveFn   func(cs any, solution any)
+	SolverEventFn func(solver any, kind int, a, b int)
+	GateFn        func(site string, obj any, a, b int)
+)
+
+// PostSolve is called by constraint systems once a solution has been computed.
+func PostSolve(cs any, solution any) {
+	if f := PostSolveFn; f != nil {
+		f(cs, solution)
+	}
+}
+
+// SolverEvent is called by the level-parallel solver at scheduling points.
+func SolverEvent(solver any, kind int, a, b int) {
+	if f := SolverEventFn; f != nil {
+		f(solver, kind, a, b)
+	}
+}
+
+// Gate is called at linearization points of shared mutable state.
+func Gate(site string, obj any, a, b int) {
+	if f := GateFn; f != nil {
+		f(site, obj, a, b)
+	}
+}
